@@ -56,7 +56,7 @@ EXC = {"E0": E0, "E1": E1, "E2": E2, "E3": E3, "Fault": Fault}
 
 
 def jsonable(v, depth=0):
-    if depth > 6:
+    if depth > 14:
         return "..."
     if isinstance(v, (str, int, float, bool)) or v is None:
         return v
@@ -223,8 +223,8 @@ class Fn(object):
             return (tuple(args), tuple(sorted(kwargs.items())))
         if kind == "raise":
             e = EXC[b[1]]()
-            e.tag = (self.name, k)
-            w.raised[(self.name, k)] = e
+            e.tag = ("c", self.name, k)
+            w.raised.setdefault(jsonable(e.tag).__repr__(), []).append(e)
             raise e
         if kind == "reraise":
             raise args[0]
@@ -233,7 +233,27 @@ class Fn(object):
         if kind == "fut":
             return w.make_future(b[1], b[2] if len(b) > 2 else None, "%s#%d" % (self.name, k))
         if kind == "nonfut":
-            return ("nonfuture", self.name, k)
+            return ("nonfuture", self.name)
+        if kind == "raisearg":
+            # layer-function fault whose tag depends on the argument only (not on call order)
+            import models
+            tag = (self.name, _thaw(models.origin(jsonable(args[0]))))
+            e = EXC[b[1]]()
+            e.tag = tag
+            w.raised.setdefault(jsonable(tag).__repr__(), []).append(e)
+            raise e
+        if kind == "futarg":
+            import models
+            if b[1] == "done":
+                return mf.f_return(("fm", args[0]))
+            if b[1] == "err":
+                tag = (self.name, _thaw(models.origin(jsonable(args[0]))))
+                e = EXC[b[2] if len(b) > 2 else "E2"]()
+                e.tag = tag
+                w.raised.setdefault(jsonable(tag).__repr__(), []).append(e)
+                return mf.f_return_error(e)
+            if b[1] == "cancelled":
+                return mf.f_return_cancelled()
         if kind == "gate":
             w.gate(b[1]).wait(1e9)
             return self._do(b[2], k, args, kwargs)
@@ -307,6 +327,11 @@ class RecExceptionPolicy(ExceptionRetryPolicy):
 
 def find_sub(v):
     """Find the submission tag ("c", fnname, k) inside a (possibly wrapped) value."""
+    import models
+    return models.origin(jsonable(v))
+
+
+def _find_sub_old(v):
     if isinstance(v, (tuple, list)):
         if len(v) == 3 and v[0] == "c":
             return v
@@ -344,10 +369,11 @@ class PollFn(object):
             for d in descriptors:
                 sub = find_sub(d.result)
                 key = sub[1] if sub else None
-                self.seen[key] = self.seen.get(key, 0) + 1
+                skey = (key, sub[2] if sub else None)
+                self.seen[skey] = self.seen.get(skey, 0) + 1
                 spec = self.per_sub.get(key, {})
                 after = spec.get("after", 1)
-                if after is None or self.seen[key] < after:
+                if after is None or self.seen[skey] < after:
                     continue
                 then = spec.get("then", ["res"])
                 if then[0] == "res":
@@ -356,8 +382,8 @@ class PollFn(object):
                     d.yield_result(val)
                 elif then[0] == "exc":
                     e = EXC[then[1]]()
-                    e.tag = (self.name, key, k)
-                    w.raised[(self.name, key, k)] = e
+                    e.tag = (self.name, key)
+                    w.raised.setdefault(jsonable(e.tag).__repr__(), []).append(e)
                     w.rec("poll_yield_exc", fn=self.name, k=k, sub=key, exc=jsonable(e))
                     d.yield_exception(e)
                 elif then[0] == "res2":
@@ -653,7 +679,8 @@ class World(object):
                 ex = f.exception(0)
                 if ex is not None:
                     out["exc"] = jsonable(ex)
-                    out["exc_id"] = id(ex)
+                    reg = self.raised.get(jsonable(getattr(ex, "tag", None)).__repr__())
+                    out["exc_same"] = any(r is ex for r in reg) if isinstance(reg, list) else None
                 else:
                     v = f.result(0)
                     out["value"] = jsonable(v)
